@@ -8,6 +8,12 @@ open H5V.Model.Dom hiding Str
 open H5V.Model.HtmlTB hiding Str
 open H5V.Lemmas.Dom
 
+/-- every formatting element among the element children of the root has an entry with its name in the list
+of active formatting elements (such children arise only by reconstruction in the after-after-frameset mode) -/
+def Afx (d : Dom) (af : List FormatEntry) (r : Id) : Prop :=
+  ∀ x ∈ rootElems d r, isFmtE (nm d x) = true →
+    ∃ y t, FormatEntry.element y t ∈ af ∧ t.name = (nm d x).loc
+
 /-- the mode-independent part of the stack-shape invariant -/
 structure Core (s : State) (r : Id) (up : List Id) (ph : Phase) : Prop where
   late : Late s
@@ -24,7 +30,8 @@ structure Core (s : State) (r : Id) (up : List Id) (ph : Phase) : Prop where
   rnd : (s.dom.childrenOf r).Nodup
   kids : ∀ c ∈ s.dom.childrenOf r, KidOkR s.dom c
   elems : ElemsOk s.dom s.headElem r ph
-  bh : ∀ y ∈ up.tail, htmlIn (nm s.dom y) ["html", "body", "head", "frameset"] = false
+  bh : ∀ y ∈ up.tail, htmlIn (nm s.dom y) (bhNames ph) = false
+  afx : Afx s.dom s.activeFormatting r
 
 /-- **the stack-shape invariant** -/
 structure ShapeAt (s : State) (r : Id) (up : List Id) (ph : Phase) : Prop where
@@ -32,6 +39,22 @@ structure ShapeAt (s : State) (r : Id) (up : List Id) (ph : Phase) : Prop where
   fits : FitsM s up ph
 
 def Shape (s : State) : Prop := ∃ r up ph, ShapeAt s r up ph
+
+theorem bh_of4 {n : EName} {ph : Phase} (h : htmlIn n ["html", "body", "head", "frameset"] = false) :
+    htmlIn n (bhNames ph) = false := by
+  cases ph <;> first | exact h | skip
+  unfold bhNames
+  unfold htmlIn isOneOf at h ⊢
+  simp only [List.any_cons, List.any_nil, Bool.or_false, Bool.and_eq_false_iff, Bool.or_eq_false_iff] at h ⊢
+  rcases h with h | h
+  · exact Or.inl h
+  · exact Or.inr ⟨h.1, h.2.1, h.2.2.1⟩
+
+theorem Core.bh4 {s : State} {r : Id} {up : List Id} {ph : Phase} (h : Core s r up ph) (hnp : ¬ ph.isPf) :
+    ∀ y ∈ up.tail, htmlIn (nm s.dom y) ["html", "body", "head", "frameset"] = false := by
+  intro y hy
+  have := h.bh y hy
+  cases ph <;> first | exact this | exact absurd trivial hnp
 
 /-! ### stability of the name-dependent notions -/
 
@@ -130,6 +153,53 @@ theorem tcount_congr {d d' : Dom} {l : List Id} (hn : SameNames d d' l) : tcount
   intro x hx
   rw [hn x hx]
 
+theorem Afx.congr {d d' : Dom} {af af' : List FormatEntry} {r : Id} (hre : rootElems d' r = rootElems d r)
+    (hnm : ∀ x ∈ rootElems d r, nm d' x = nm d x)
+    (haf : ∀ y t, FormatEntry.element y t ∈ af → ∃ y', FormatEntry.element y' t ∈ af') (h : Afx d af r) :
+    Afx d' af' r := by
+  intro x hx hf
+  rw [hre] at hx
+  rw [hnm x hx] at hf ⊢
+  obtain ⟨y, t, hy, ht⟩ := h x hx hf
+  obtain ⟨y', hy'⟩ := haf y t hy
+  exact ⟨y', t, hy', ht⟩
+
+theorem Afx.same {d : Dom} {af af' : List FormatEntry} {r : Id}
+    (haf : ∀ y t, FormatEntry.element y t ∈ af → ∃ y', FormatEntry.element y' t ∈ af') (h : Afx d af r) :
+    Afx d af' r := h.congr rfl (fun _ _ => rfl) haf
+
+theorem Afx.of_nodes {d d' : Dom} {af : List FormatEntry} {r : Id} (hn : d'.nodes = d.nodes) (h : Afx d af r) :
+    Afx d' af r := by
+  have hre : rootElems d' r = rootElems d r := by
+    unfold rootElems
+    rw [childrenOf_of_nodes hn]
+    apply List.filter_congr
+    intro x _
+    exact isElement_of_nodes hn x
+  exact h.congr hre (fun x _ => nm_of_nodes hn x) (fun y t hy => ⟨y, hy⟩)
+
+/-- before the frameset phase no child of the root is a formatting element -/
+theorem Afx.of_elems {d : Dom} {head : Option Id} {r : Id} {ph : Phase} {af : List FormatEntry}
+    (h : ElemsOk d head r ph) (hnp : ¬ ph.isPf) : Afx d af r := by
+  intro x hx hf
+  exfalso
+  cases ph with
+  | p0 => rw [h.2] at hx; cases hx
+  | p1 =>
+    obtain ⟨hh, _, h2, h3⟩ := h
+    rw [h2] at hx
+    simp only [List.mem_cons, List.not_mem_nil, or_false] at hx
+    subst hx
+    rw [h3] at hf; revert hf; decide
+  | pb b =>
+    obtain ⟨hh, _, h2, h3, h4⟩ := h
+    rw [h2] at hx
+    simp only [List.mem_cons, List.not_mem_nil, or_false] at hx
+    rcases hx with rfl | rfl
+    · rw [h3] at hf; revert hf; decide
+    · rw [h4] at hf; revert hf; decide
+  | pf fs => exact hnp trivial
+
 /-- the general transfer lemma: the builder fields the invariant looks at are unchanged, the arena
 changed by `Chg`, and the root was left alone -/
 theorem Core.transfer {s s' : State} {r : Id} {up : List Id} {ph : Phase} (h : Core s r up ph)
@@ -141,7 +211,7 @@ theorem Core.transfer {s s' : State} {r : Id} {up : List Id} {ph : Phase} (h : C
   have hel : ∀ x ∈ s.openElems, s.dom.isElement x = true := h.late.st.oe
   have hsn : SameNames s.dom s'.dom s.openElems := SameNames.of_chg hc hel
   refine ⟨hl, by rw [hoe]; exact h.stack, hk0, by rw [hoe]; exact h.nodup, ?_, ?_, ?_, by rw [htm]; exact h.tmm, ?_,
-    hrs.uniq h.rtu, by rw [hrs.kids]; exact h.rnd, ?_, ?_, ?_⟩
+    hrs.uniq h.rtu, by rw [hrs.kids]; exact h.rnd, ?_, ?_, ?_, ?_⟩
   · rw [hoe]; exact h.tg.congr hsn
   · intro x t hx
     rw [haf] at hx
@@ -159,6 +229,9 @@ theorem Core.transfer {s s' : State} {r : Id} {up : List Id} {ph : Phase} (h : C
   · intro y hy
     rw [hsn y (by rw [h.stack]; exact List.mem_cons_of_mem _ (List.mem_of_mem_tail hy))]
     exact h.bh y hy
+  · rw [haf]
+    exact h.afx.congr (rootElems_eq hb hc hrs.kids) (fun x hx => nm_chg hc (mem_rootElems hx).2)
+      (fun y t hy => ⟨y, hy⟩)
 
 theorem Core.sameNames {s s' : State} {r : Id} {up : List Id} {ph : Phase} (h : Core s r up ph)
     (hc : Chg s.dom s'.dom) : SameNames s.dom s'.dom up :=
@@ -175,7 +248,7 @@ theorem FitsM.transfer {s s' : State} {up : List Id} {ph : Phase} (hf : FitsM s 
     | skip
   · obtain ⟨om, up0, x, h1, h2, h3, h4, h5, h6⟩ := hf
     exact ⟨om, up0, x, h1, h2, h3, h4, h5.congr (fun y hy => hsnu y (by rw [h2]; simp [hy])),
-      by rw [hsnu x (by rw [h2]; simp)]; exact h6⟩
+      by rw [hsnu x (by rw [h2]; simp)]; exact h6.1, by rw [hsnu x (by rw [h2]; simp)]; exact h6.2⟩
   · obtain ⟨om, h1, h2, h3⟩ := hf
     exact ⟨om, h1, h2, h3.congr hsnu⟩
 
